@@ -46,6 +46,7 @@ type c19wCase struct {
 	Paradigm string     `json:"paradigm"`
 	InChunks []int      `json:"inChunks"`
 	Consume  int        `json:"consume"`
+	Handlers []string   `json:"handlers,omitempty"`
 }
 
 func c19wBuild(c *c19wCase, tr *c19Tracker) (*compose.Workflow[gcase.M, gcase.M], error) {
@@ -155,10 +156,14 @@ func c19wOne(ctx *vh.Ctx, c *c19wCase) error {
 	if panicked, pv := vh.Safely(func() {
 		finished = vh.WithTimeout(20*time.Second, func() {
 			var sr *schema.StreamReader[gcase.M]
+			var ropts []compose.Option
+			if len(c.Handlers) > 0 {
+				ropts = append(ropts, compose.WithCallbacks(c19Handlers(c.Handlers)...))
+			}
 			if c.Paradigm == "transform" {
-				sr, runErr = r.Transform(bg, schema.StreamReaderFromArray(gcase.ChunkMap(c.InChunks, x)))
+				sr, runErr = r.Transform(bg, schema.StreamReaderFromArray(gcase.ChunkMap(c.InChunks, x)), ropts...)
 			} else {
-				sr, runErr = r.Stream(bg, x)
+				sr, runErr = r.Stream(bg, x, ropts...)
 			}
 			if runErr != nil {
 				return
@@ -182,6 +187,9 @@ func c19wOne(ctx *vh.Ctx, c *c19wCase) error {
 		ctx.Res.Dist("wf:succ=" + s.Kind)
 	}
 	ctx.Res.Dist("wf:cond=" + c.Cond)
+	for _, h := range c.Handlers {
+		ctx.Res.Dist("wf:handler=" + h)
+	}
 	ctx.Res.Dist(fmt.Sprintf("wf:consume=%d", c.Consume))
 	ctx.Res.Dist(fmt.Sprintf("wf:chunks=%d", c.Chunks))
 	if !finished {
@@ -202,7 +210,11 @@ func c19wOne(ctx *vh.Ctx, c *c19wCase) error {
 			ks = append(ks, k)
 		}
 		sort.Strings(ks)
-		return strings.Join(ks, "+") + ":" + c.Cond
+		sfx := ""
+		if len(c.Handlers) > 0 {
+			sfx = ":callbacks"
+		}
+		return strings.Join(ks, "+") + ":" + c.Cond + sfx
 	}
 	if !tr.settled(4 * time.Second) {
 		ctx.Res.Disagree(vh.Disagreement{Signature: "C19:wf:producer-blocked:" + sigShape(),
@@ -264,6 +276,7 @@ func c19wGen(r *vh.Rand) *c19wCase {
 		c.InChunks = []int{0}
 	}
 	c.Consume = []int{-1, 0, 1}[r.Intn(3)]
+	c.Handlers = c19GenHandlers(r)
 	return c
 }
 
